@@ -9,6 +9,7 @@
   The harness compares the models with the real methods on every run.
 -/
 import SFModel.RelLemmas
+import SFModel.RelStackLemmas
 set_option linter.unusedSectionVars false
 
 namespace SF.C20
@@ -311,6 +312,130 @@ example :
     let f : HFr Nat := ⟨[[0], [1]], [[7, 1], [7, 2], [8, 1]], [[10, 11, 12], [20, 21, 22]]⟩
     (pivotStack f [false, true] 99 id >>= fun s => pivotUnstack s [false, true] 99 id) =
       .ok ⟨[[0], [1]], [[7, 1], [7, 2], [8, 1], [8, 2]], [[10, 11, 12, 99], [20, 21, 22, 99]]⟩ := by decide
+
+/-- The full round trip.  `StackWF f m1 m2` (decidable, `RelStackLemmas.lean`): `f` has a row and
+    a column; unique row labels; unique column labels, all of the depth of `m1`; both masks leave a
+    depth on the contracted axis; UNIFORM COLUMN TREE: every group holds every target (in any
+    order, the groups need not be contiguous); rectangular rows, one per row label; `m2` splits a
+    stacked row label `r ++ t` back into `(r, t)` (`unstackMaskOf_spec`: the canonical mask does).
+    Then `pivot_unstack m2 (pivot_stack m1 f)` succeeds and is `f` with its columns read in the
+    order `regroupOrder m1 f.columns` — the groups in the order first seen, within a group the
+    targets in the order first seen, each entry the position of THE column of `f` with that
+    (group, target) — which is a permutation of the column positions: same index, every row keeps
+    its cells under its labels, no fill value, no cell lost.  A label is shown as `regroup m1 l`
+    (its group depths followed by its target depths). -/
+theorem stack_unstack_roundtrip (f : HFr α) (m1 m2 : List Bool) (fill : α) (auto : Nat → α)
+    (wf : StackWF f m1 m2) :
+    (pivotStack f m1 fill auto >>= fun s => pivotUnstack s m2 fill auto) = .ok
+      { index := f.index
+        columns := sel (f.columns.map (regroup m1)) (regroupOrder m1 f.columns)
+        rows := f.rows.map fun row => sel row (regroupOrder m1 f.columns) } ∧
+    (regroupOrder m1 f.columns).Perm (List.range f.columns.length) :=
+  stack_unstack_of_wf f m1 m2 fill auto wf
+
+/-- Ordered uniform tree (`OrderedTree`, decidable: the columns are group-major and every group
+    lists the same targets in the same order): the order is the identity — the round trip returns
+    the index, the rows and the columns of `f` unchanged, each column label regrouped. -/
+theorem stack_unstack_roundtrip_ordered (f : HFr α) (m1 m2 : List Bool) (fill : α) (auto : Nat → α)
+    (wf : StackWF f m1 m2) (hord : OrderedTree m1 f.columns) :
+    (pivotStack f m1 fill auto >>= fun s => pivotUnstack s m2 fill auto) = .ok
+      { index := f.index, columns := f.columns.map (regroup m1), rows := f.rows } := by
+  rw [(stack_unstack_roundtrip f m1 m2 fill auto wf).1]
+  obtain ⟨_, _, _, hC, hdep, _, _, _, _, hrect, _⟩ := wf
+  rw [regroupOrder_of_product m1 f.columns (split_nodup_of_depth m1 f.columns hC hdep) hord]
+  refine congrArg Except.ok ?_
+  congr 1
+  · exact sel_range _ _ (by simp)
+  · have : ∀ row ∈ f.rows, sel row (List.range f.columns.length) = row :=
+      fun row hrow => sel_range row _ (hrect row hrow)
+    rw [List.map_congr_left this, List.map_id']
+
+/-- The usual call (`m1` keeps the outer `a` depths and stacks the inner `b` depths; `m2` is the
+    canonical inverse mask for row labels of depth `n`): `pivot_unstack (pivot_stack f) = f`. -/
+theorem stack_unstack_roundtrip_id (f : HFr α) (a b n : Nat) (fill : α) (auto : Nat → α)
+    (wf : StackWF f (List.replicate a false ++ List.replicate b true)
+      (unstackMaskOf n (List.replicate a false ++ List.replicate b true)))
+    (hord : OrderedTree (List.replicate a false ++ List.replicate b true) f.columns) :
+    (pivotStack f (List.replicate a false ++ List.replicate b true) fill auto >>= fun s =>
+      pivotUnstack s (unstackMaskOf n (List.replicate a false ++ List.replicate b true)) fill auto) =
+      .ok f := by
+  rw [stack_unstack_roundtrip_ordered f _ _ fill auto wf hord]
+  obtain ⟨_, _, _, _, hdep, _⟩ := wf
+  have : ∀ l ∈ f.columns, regroup (List.replicate a false ++ List.replicate b true) l = l :=
+    fun l hl => regroup_id a b l (by rw [hdep l hl]; simp)
+  rw [List.map_congr_left this, List.map_id']
+
+/-- the round trip addressed by labels: every column `l` of `f` is a column `regroup m1 l` of the
+    result and holds, in every row, the cell of `f`; nothing else is in the result. -/
+theorem stack_unstack_roundtrip_cells (f u : HFr α) (m1 m2 : List Bool) (fill : α) (auto : Nat → α)
+    (wf : StackWF f m1 m2)
+    (hu : (pivotStack f m1 fill auto >>= fun s => pivotUnstack s m2 fill auto) = .ok u) :
+    u.index = f.index ∧ u.rows.length = f.rows.length ∧ u.columns.length = f.columns.length ∧
+    ∀ (c : Nat) l, f.columns[c]? = some l →
+      ∃ p, u.columns[p]? = some (regroup m1 l) ∧ ∀ i, cellAt u.rows i p = cellAt f.rows i c := by
+  obtain ⟨he, hperm⟩ := stack_unstack_roundtrip f m1 m2 fill auto wf
+  rw [he] at hu
+  simp only [Except.ok.injEq] at hu
+  subst hu
+  obtain ⟨_, _, _, _, _, _, _, _, _, hrect, _⟩ := wf
+  have hb : ∀ j ∈ regroupOrder m1 f.columns, j < f.columns.length := fun j hj => by
+    simpa using (hperm.mem_iff.mp hj)
+  have hlen : (regroupOrder m1 f.columns).length = f.columns.length := by
+    simpa using hperm.length_eq
+  refine ⟨rfl, by simp, ?_, ?_⟩
+  · show (sel _ _).length = _
+    rw [sel_length _ _ (by simpa using hb), hlen]
+  · intro c l hc
+    have hclt : c < f.columns.length := (List.getElem?_eq_some_iff.mp hc).1
+    have hmem : c ∈ regroupOrder m1 f.columns := hperm.mem_iff.mpr (by simpa using hclt)
+    obtain ⟨p, hp⟩ := List.mem_iff_getElem?.mp hmem
+    refine ⟨p, ?_, ?_⟩
+    · show (sel _ _)[p]? = _
+      unfold sel
+      rw [pick_getElem? _ _ _ (by simpa using hb), hp]
+      simp [hc]
+    · intro i
+      unfold cellAt
+      show ((f.rows.map _)[i]?).bind _ = _
+      rw [List.getElem?_map]
+      cases hrow : f.rows[i]? with
+      | none => rfl
+      | some row =>
+        have hrl := hrect row (List.mem_of_getElem? hrow)
+        simp only [Option.map_some, Option.bind_some]
+        unfold sel
+        rw [pick_getElem? _ _ _ (by rw [hrl]; exact hb), hp]
+        rfl
+
+/-- non-vacuity: a 2 x 4 frame, two groups x two targets.  The hypotheses hold, the canonical
+    mask is `[false, true]`, and the round trip computes to the frame itself. -/
+example :
+    let f : HFr Nat := ⟨[[0], [1]], [[7, 1], [7, 2], [8, 1], [8, 2]], [[10, 11, 12, 13], [20, 21, 22, 23]]⟩
+    StackWF f [false, true] [false, true] ∧ OrderedTree [false, true] f.columns ∧
+    unstackMaskOf 1 [false, true] = [false, true] ∧
+    List.replicate 1 false ++ List.replicate 1 true = [false, true] ∧
+    (pivotStack f [false, true] 99 id >>= fun s => pivotUnstack s [false, true] 99 id) = .ok f := by
+  decide
+
+/-- the same cells with the groups interleaved (uniform but not group-major): the round trip
+    gathers the groups, `regroupOrder = [0, 2, 1, 3]`; and with the target depth first in the
+    labels the result labels are regrouped -/
+example :
+    let f : HFr Nat := ⟨[[0], [1]], [[7, 1], [8, 1], [7, 2], [8, 2]], [[10, 12, 11, 13], [20, 22, 21, 23]]⟩
+    let g : HFr Nat := ⟨[[0], [1]], [[1, 7], [2, 7], [1, 8], [2, 8]], [[10, 11, 12, 13], [20, 21, 22, 23]]⟩
+    StackWF f [false, true] [false, true] ∧ ¬ OrderedTree [false, true] f.columns ∧
+    regroupOrder [false, true] f.columns = [0, 2, 1, 3] ∧
+    (pivotStack f [false, true] 99 id >>= fun s => pivotUnstack s [false, true] 99 id) =
+      .ok ⟨[[0], [1]], [[7, 1], [7, 2], [8, 1], [8, 2]], [[10, 11, 12, 13], [20, 21, 22, 23]]⟩ ∧
+    StackWF g [true, false] [false, true] ∧ OrderedTree [true, false] g.columns ∧
+    (pivotStack g [true, false] 99 id >>= fun s => pivotUnstack s [false, true] 99 id) =
+      .ok ⟨[[0], [1]], [[7, 1], [7, 2], [8, 1], [8, 2]], [[10, 11, 12, 13], [20, 21, 22, 23]]⟩ := by
+  decide
+
+/-- the hypotheses on emptiness are needed: stacking a frame without rows loses the columns -/
+example :
+    (pivotStack (⟨[], [[7, 1], [7, 2]], []⟩ : HFr Nat) [false, true] 99 id >>= fun s =>
+      pivotUnstack s [false, true] 99 id) = .ok ⟨[], [], []⟩ := by decide
 
 end Stack
 
